@@ -186,7 +186,12 @@ class XMLDocParser:
 
             # Remember which parameters to ignore, if any
             for i in range(len(method_args_names), num_tot_params):
-                ignored_params.append(params[i].find("declname").text)
+                # same fallback as above: <declname>, else <defname>
+                ignored_name = params[i].find("declname")
+                if ignored_name is None:
+                    ignored_name = params[i].find("defname")
+                if ignored_name is not None:
+                    ignored_params.append(ignored_name.text)
 
         return member_defs, ignored_params
 
@@ -264,9 +269,12 @@ class XMLDocParser:
             if parameter_list is not None:
                 for i, parameter_item in enumerate(
                         parameter_list.findall(".//parameteritem")):
-                    name = parameter_item.find(".//parametername").text
-                    desc = parameter_item.find(
-                        ".//parameterdescription/para").text
+                    # an item may lack a name or a description paragraph
+                    name_el = parameter_item.find(".//parametername")
+                    name = name_el.text if name_el is not None else None
+                    desc_el = parameter_item.find(
+                        ".//parameterdescription/para")
+                    desc = desc_el.text if desc_el is not None else None
                     if name not in ignored_params:
                         docstring += f"{name.strip() if name else f'[Parameter {i}]'}: {desc.strip() if desc else 'No description provided'}\n"
 
